@@ -6,7 +6,6 @@ use datafusion_proto::bytes::{physical_plan_from_bytes, physical_plan_to_bytes};
 use dfv::canon::compare;
 use dfv::cases::Case;
 use dfv::diffrun::*;
-use dfv::qgen::GenCfg;
 use std::sync::Arc;
 use vcommon::{fp_mix, fp_str, json, Args, Report, Rng};
 
@@ -117,7 +116,8 @@ fn run(args: &Args) -> i32 {
     let rep = Report::new("C36", "exploration", args);
     rep.set_rule("case = generated query over Parquet listing tables planned under one of 7 configurations; the physical plan is encoded with the default codec, decoded in a fresh session, compared by verbose indent text, per-node properties (partitioning, orderings, boundedness, emission) and by differential execution; distinct = hash(case, plan text); non-trivial = encoding succeeded");
     rep.assume("encode failures are skips (the property is conditional), counted by reason");
-    let cfg = GenCfg::default();
+    let cfg = gen_cfg_from(args, "full");
+    rep.extra("generator_fragment", json!(format!("{cfg:?}")));
     for_each_case(args, &rep, 0xC36, args.bound("systematic", 400, 3000), args.bound("random", 400, 12000), &cfg, |case, rng, _| one_case(&rep, case, rng));
     rep.obligation("roundtrips", rep.get_count("roundtrips") > 100, "physical plans must actually round-trip");
     rep.finish()
